@@ -107,6 +107,7 @@ class TaskSet : public TaskSetBase {
   DISPENSO_REQUIRES(OnceCallableFunc<F>)
   void schedule(F&& f) {
     if (DISPENSO_EXPECT(canceled(), false)) {
+      detail::discardUnrun(f);
       return;
     }
     if (outstandingTaskCount_.load(std::memory_order_relaxed) > taskSetLoadFactor_ &&
@@ -303,6 +304,7 @@ class ConcurrentTaskSet : public TaskSetBase {
       bool skipRecheck = false,
       float poolRecursiveLoadFactor = kDefaultPoolRecursiveLoadFactor) {
     if (DISPENSO_EXPECT(canceled(), false)) {
+      detail::discardUnrun(f);
       return;
     }
     if (cost_ == TaskCost::kHeavy) {
@@ -456,6 +458,7 @@ class ConcurrentTaskSet : public TaskSetBase {
       bool skipRecheck = false,
       float poolRecursiveLoadFactor = kDefaultPoolRecursiveLoadFactor) {
     if (DISPENSO_EXPECT(canceled(), false)) {
+      detail::discardUnrun(f);
       return;
     }
     ssize_t placedThreshold = std::max(pool_.numThreads() + 1, taskSetLoadFactor_ / 2);
